@@ -36,6 +36,8 @@ pub struct Env {
     pub streams: HashMap<u32, StreamState>,
     pub base: Instant,
     pub base_us: u64,
+    /// ack ids returned by this client's most recent successful Pull (for `acklast`)
+    pub last_acks: Vec<String>,
 }
 
 pub fn now_us() -> u64 {
@@ -150,6 +152,7 @@ impl Env {
             streams: HashMap::new(),
             base: Instant::now(),
             base_us: now_us(),
+            last_acks: Vec::new(),
         }
     }
 
@@ -163,6 +166,7 @@ impl Env {
             streams: HashMap::new(),
             base: self.base,
             base_us: self.base_us,
+            last_acks: Vec::new(),
         }
     }
 
@@ -567,12 +571,28 @@ pub async fn step(env: &mut Env, line: &str) -> Answer {
             .await;
             settle().await;
             match r {
-                Ok(p) => Answer {
-                    main: format!("ok {}", received_out(&p.get_ref().received_messages)),
-                    side: received_times(&p.get_ref().received_messages),
-                },
+                Ok(p) => {
+                    env.last_acks = p.get_ref().received_messages.iter().map(|m| m.ack_id.clone()).collect();
+                    Answer {
+                        main: format!("ok {}", received_out(&p.get_ref().received_messages)),
+                        side: received_times(&p.get_ref().received_messages),
+                    }
+                }
                 Err(e) => ans(e),
             }
+        }
+        // acklast <sub>: acknowledge exactly the ack ids this client's last Pull returned (what a client does);
+        // the answer names them: `ok <hex ack id>,…`
+        "acklast" => {
+            let subscription = s!(1);
+            let ack_ids = env.last_acks.clone();
+            let named = join(&ack_ids.iter().map(|a| hex(a.as_bytes())).collect::<Vec<_>>(), ",");
+            let r = guarded(env.subscriber.acknowledge(AcknowledgeRequest { subscription, ack_ids })).await;
+            settle().await;
+            ans(match r {
+                Ok(_) => format!("ok {}", named),
+                Err(e) => e,
+            })
         }
         "ack" => {
             let subscription = s!(1);
